@@ -296,6 +296,25 @@ class Census:
                 return "precondition: %s is %s by a dominating test" % (pp(base), want)
         if name in ("ops::Index::index", "ops::IndexMut::index_mut"):
             v, i = args
+            g = [norm(x) for x in (cs.callee.get("generics") or []) if not x.startswith("'")]
+            if g and g[0].startswith("[") and not g[0].startswith("[T; "):
+                # a slice indexed by a range / position: the bounds the indexing operation checks
+                ln = T.length(v.args[0] if v.op == "refval" else v)
+                if i.op == "agg" and i.args[1] in ("ops::Range", "ops::RangeTo", "ops::RangeFrom", "ops::RangeFull"):
+                    ops_ = list(i.args[4])
+                    lo = ops_[0] if i.args[1] in ("ops::Range", "ops::RangeFrom") else None
+                    hi = ops_[-1] if i.args[1] in ("ops::Range", "ops::RangeTo") else None
+                    ok = True
+                    if lo is not None and hi is not None and not pv.le(lo, hi, facts):
+                        ok = False
+                    if hi is not None and not (pv.le(hi, ln, facts) or _valid_up_to(hi, v)):
+                        ok = False
+                    if hi is None and lo is not None and not pv.le(lo, ln, facts):
+                        ok = False
+                    if ok:
+                        return "precondition: range %s within the slice" % pp(i)[:80]
+                elif len(g) > 1 and g[1] == "usize" and pv.lt(i, ln, facts):
+                    return "precondition: index %s < len" % pp(i)[:60]
             # Vec / slice indexed by a constant below a proven length
             vv = v
             if i.op == "const" and i.args[1] == 0:
@@ -314,6 +333,17 @@ class Census:
             if a["has_dtor"] and a["path"] in ty:
                 self.rep.bad(self.prefix + "drop", self.key(fn, "drop", ty), wh(t["span"]),
                              "%s drops %s which has an in-crate Drop impl (may panic)" % (fn["qual"], ty))
+
+
+def _valid_up_to(hi, v):
+    """core contract: Utf8Error::valid_up_to() of from_utf8(v) is at most len(v)"""
+    if hi.op == "call" and hi.args[0].endswith("Utf8Error::valid_up_to") and hi.args[2]:
+        e = hi.args[2][0]
+        e = e.args[0] if e.op == "refval" else e
+        if e.op == "payload" and e.args[0].op == "call" and e.args[0].args[0] in ("str::from_utf8", "str::converts::from_utf8"):
+            src = e.args[0].args[2][0]
+            return src is v or (v.op == "refval" and src is v.args[0]) or (src.op == "refval" and src.args[0] is v)
+    return False
 
 
 def _ppf(f):
